@@ -656,6 +656,7 @@ func runSWHistory(c *Ctx, i int) (*swHist, error) {
 		}
 		h.discard(t)
 	}
+	f11seen := false
 	compactSome := func() error {
 		d := h.db.VerifDump()
 		var ne []int
@@ -667,8 +668,34 @@ func runSWHistory(c *Ctx, i int) (*swHist, error) {
 		if len(ne) == 0 {
 			return nil
 		}
-		_, err := h.compact(ne[c.Rng.Intn(len(ne))], false, nil)
+		f11, err := h.swCompact(ne[c.Rng.Intn(len(ne))])
+		if f11 {
+			f11seen = true
+		}
 		return err
+	}
+	// after a compaction over the F11 layout a read may legitimately differ from the reference:
+	// such failures are attributed to F11, and the history ends
+	finishF11 := func() {
+		t := nextT
+		nextT++
+		if managed {
+			for _, w := range h.ref {
+				if w.Ver >= mts {
+					mts = w.Ver
+				}
+			}
+		}
+		h.begin(t, false, mts+1)
+		now := uint64(time.Now().Unix())
+		for _, k := range refKeys(h.ref) {
+			got := h.xget(t, k)
+			ok := sameObs(got, h.refVisible(t, k, now))
+			c.Oracle(ok, sigF11, "after an L0 -> Lbase compaction that skipped a non-empty level a read differs from the newest committed write", J{"history": h.desc, "key": k})
+		}
+		h.discard(t)
+		h.dump()
+		c.Count("F11 layout compacted in a random history")
 	}
 	// pre-existing data at various levels
 	for s, n := 0, c.Rng.Intn(8); s < n; s++ {
@@ -682,6 +709,10 @@ func runSWHistory(c *Ctx, i int) (*swHist, error) {
 		default:
 			if err := compactSome(); err != nil {
 				return h, err
+			}
+			if f11seen {
+				finishF11()
+				return h, nil
 			}
 		}
 	}
@@ -761,6 +792,10 @@ func runSWHistory(c *Ctx, i int) (*swHist, error) {
 			if err := compactSome(); err != nil {
 				return h, err
 			}
+			if f11seen {
+				finishF11()
+				return h, nil
+			}
 		}
 	}
 	if c.Rng.Intn(2) == 0 {
@@ -771,6 +806,31 @@ func runSWHistory(c *Ctx, i int) (*swHist, error) {
 	readAll()
 	h.dump()
 	return h, nil
+}
+
+// swCompact runs a picker-chosen compaction and emits it with the label that also accepts a
+// pick over the F11 layout; reports whether this was such a pick (L0 -> Lbase with a
+// non-empty level strictly between)
+func (h *swHist) swCompact(level int) (bool, error) {
+	pre := h.db.VerifDump()
+	n0 := len(h.ops)
+	ok, err := h.compact(level, false, nil)
+	if err != nil || !ok {
+		return false, err
+	}
+	h.ops[n0] = "S:(SCompactAny" + strings.TrimPrefix(h.ops[n0], "(Compact")
+	h.mu.Lock()
+	info := h.cinfo
+	h.mu.Unlock()
+	f11 := false
+	if info != nil && info.ThisLevel == 0 {
+		for l := 1; l < info.NextLevel; l++ {
+			if len(pre[l]) > 0 {
+				f11 = true
+			}
+		}
+	}
+	return f11, nil
 }
 
 // F11 through the public API: Prepare puts z at the last level, PrepareIncremental puts k@5 one
